@@ -130,11 +130,15 @@ static Bytes l4_bytes(const Req& q, bool reply, const Addr& src, const Addr& dst
         default: { proto = 58; uint8_t t = reply ? 129 : 128; if (icmp_type_override >= 0) t = (uint8_t)icmp_type_override; return icmp6_bytes(t, 0, id, sq, q.payload, src, dst); }
     }
 }
+// extension header length in 8-byte units beyond the first: small ones and ones of 256 bytes and more (Hdr Ext Len >= 31)
+static size_t ext6_units(const Req& q) { static const uint16_t tab[8] = { 0, 1, 2, 1, 31, 32, 40, 120 }; return tab[(q.tos & 3) + ((q.tos & 8) ? 4 : 0)]; }
 static Bytes l3_bytes(const Req& q, const Addr& src, const Addr& dst, uint8_t proto, const Bytes& l4, Rng& r, uint16_t ipid) {
     if (q.v6) {
         if (!q.ipopt) return ip6_bytes(src, dst, proto, l4, (uint8_t)r.range(1, 255));
         // one destination-options / hop-by-hop header of (units+1)*8 bytes in front of the upper layer (units kept in q.tos)
-        size_t units = q.tos % 3; Bytes e; e.push_back(proto); e.push_back((uint8_t)units); size_t body = 6 + 8 * units; e.push_back(1); e.push_back((uint8_t)(body - 2)); for (size_t i = 0; i + 2 < body; ++i) e.push_back(0); putb(e, l4);
+        size_t units = ext6_units(q); Bytes e; e.push_back(proto); e.push_back((uint8_t)units); size_t body = 6 + 8 * units;
+        while (body) { if (body == 1) { e.push_back(0); break; } size_t n = std::min<size_t>(body, 257); e.push_back(1); e.push_back((uint8_t)(n - 2)); for (size_t i = 2; i < n; ++i) e.push_back(0); body -= n; }      // PadN options (Pad1 for a single left-over byte)
+        putb(e, l4);
         return ip6_bytes(src, dst, (uint8_t)((q.tos & 4) ? 0 : 60), e, (uint8_t)r.range(1, 255)); }
     Ip4Hdr h; h.src = src; h.dst = dst; h.proto = proto; h.id = ipid; h.ttl = (uint8_t)r.range(1, 255); h.tos = (uint8_t)(r.chance(0.3) ? r.next() : 0);
     // replies whose IP option layout differs from the request's are left open by the property: generated frames keep the request's layout
@@ -170,7 +174,7 @@ struct SockEngine : Engine {
             else { q.src = Addr::v4(10, 0, (uint8_t)cfg.range(0, 1), (uint8_t)cfg.range(1, 3)); q.dst = Addr::v4(cfg.chance(0.5) ? 10 : 192, (uint8_t)cfg.range(0, 1), 0, (uint8_t)cfg.range(4, 6)); }
             bool bcast = !q.v6 && q.l4 != 7 && cfg.chance(0.1); if (bcast) { q.dst = Addr::v4(255, 255, 255, 255); for (int i = 0; i < 6; ++i) q.dmac.b[i] = 0xff; }
             const Addr ra = bcast ? Addr::v4(10, 0, 0, 77) : q.dst; Mac rm = q.dmac; if (bcast) rm = Mac::of(5);      // who answers
-            q.ttl = (uint8_t)cfg.range(1, 255); q.tos = (uint8_t)(cfg.chance(0.3) ? cfg.next() : 0); q.ipid = (uint16_t)cfg.range(1, 65535); q.ipopt = cfg.chance(q.v6 ? 0.3 : 0.2); if (q.v6) q.tos = (uint8_t)cfg.below(8);
+            q.ttl = (uint8_t)cfg.range(1, 255); q.tos = (uint8_t)(cfg.chance(0.3) ? cfg.next() : 0); q.ipid = (uint16_t)cfg.range(1, 65535); q.ipopt = cfg.chance(q.v6 ? 0.3 : 0.2); if (q.v6) q.tos = (uint8_t)(cfg.below(8) | (cfg.chance(0.3) ? 8 : 0));
             q.sport = (uint16_t)cfg.range(1, 65535); q.dport = cfg.chance(0.3) ? 53 : (uint16_t)cfg.range(1, 65535); if (q.sport == q.dport) q.dport ^= 1;
             if (q.l4 == 7) { q.sport = 68; q.dport = 67; } if (q.l4 == 8) { q.sport = 546; q.dport = 547; }
             q.seq = (uint32_t)cfg.next(); q.ack = (uint32_t)cfg.next(); q.tcpflags = cfg.chance(0.6) ? TH_SYN : (TH_ACK | TH_PSH);
@@ -225,7 +229,7 @@ struct SockEngine : Engine {
                                 Ip4Hdr oh; oh.src = cfg.chance(0.5) ? ra : other; oh.dst = q.src; oh.proto = 1; oh.id = (uint16_t)net.next(); Req q4 = q; q4.v6 = false; s.f = l2_wrap(q4, rm, q.smac, q.vid, ip4_bytes(oh, ic), true); }
                             break;
                     case 10: case 11: case 12: {   // truncations of the mirror below the end of the innermost matched header
-                        Bytes m = mirror(); size_t l2 = q.l2 ? (q.vlan ? 18 : 14) : 14; size_t ext6 = (q.v6 && q.ipopt) ? ((size_t)(q.tos % 3) + 1) * 8 : 0; size_t l3 = q.v6 ? 40 + ext6 : 20; size_t l4need = q.l4 == 0 ? 20 : q.l4 == 1 ? 8 : q.l4 == 2 ? 20 : q.l4 == 7 ? 8 + 236 : q.l4 == 8 ? 8 + 4 : 8;
+                        Bytes m = mirror(); size_t l2 = q.l2 ? (q.vlan ? 18 : 14) : 14; size_t ext6 = (q.v6 && q.ipopt) ? (ext6_units(q) + 1) * 8 : 0; size_t l3 = q.v6 ? 40 + ext6 : 20; size_t l4need = q.l4 == 0 ? 20 : q.l4 == 1 ? 8 : q.l4 == 2 ? 20 : q.l4 == 7 ? 8 + 236 : q.l4 == 8 ? 8 + 4 : 8;
                         size_t base = q.l2 ? 0 : l2; size_t cutmax = l2 + l3 + l4need - 1; std::vector<size_t> pts; pts.push_back(base); pts.push_back(l2); pts.push_back(l2 + 1); pts.push_back(l2 + l3 - 1); pts.push_back(l2 + l3); pts.push_back(l2 + l3 + 1); pts.push_back(cutmax); if (l2 > 1) pts.push_back(l2 - 1); if (ext6) { for (size_t j = 1; j <= 8; ++j) pts.push_back(l2 + l3 - j); pts.push_back(l2 + 40 + 1); pts.push_back(l2 + 40 + 2); }
                         size_t cut = pts[cfg.below(pts.size())]; if (cfg.chance(0.3)) cut = (size_t)cfg.range((int64_t)base, (int64_t)cutmax); if (cut > cutmax) cut = cutmax; if (cut < base) cut = base;
                         m.resize(std::min(m.size(), cut)); s.pert = fmt("truncated:%zu", cut - base); s.f = m; break; }
@@ -315,6 +319,18 @@ struct SockEngine : Engine {
                 in.ethertype = et; if (f.size() <= o) continue; in.l3off = (int)o; in.v6 = et == 0x86dd;
                 if (et == 0x0800 && f.size() >= o + 20) in.ipproto = f[o + 9]; else if (et == 0x86dd && f.size() >= o + 40) { in.ipproto = f[o + 6]; size_t x = o + 40; while ((in.ipproto == 0 || in.ipproto == 60 || in.ipproto == 43) && f.size() >= x + 2) { int nh = f[x]; size_t l = ((size_t)f[x + 1] + 1) * 8; in.ipproto = nh; x += l; } if (in.ipproto == 0 || in.ipproto == 60 || in.ipproto == 43) in.ipproto = q.l4 == 6 ? 58 : 17; } else in.ipproto = -2;
                 if (!q.l2 && in.ipproto == -2) { /* a truncated datagram still reaches the raw socket of the protocol it claimed: use the mirror's */ in.ipproto = q.l4 == 0 ? 6 : ((q.l4 <= 2 || q.l4 >= 7) ? 17 : (q.l4 == 6 ? 58 : 1)); }
+            }
+            // direct form of the same question, asked of a request object that has never been serialized (a clone, so that the object
+            // sent below is untouched): the matcher must not depend on state that only serialization refreshes
+            if (q.l2 || !q.v6) {
+                std::unique_ptr<Tins::PDU> fresh(req->clone());
+                for (auto& in : simnet::inbound) {
+                    if (perts[in.idx] == "unreach-own") continue;      // an ICMP error quotes the bytes that were sent: only meaningful once the request has been serialized
+                    const Bytes& f = in.frame; size_t off = q.l2 ? 0 : (in.l3off > 0 && in.ethertype == 0x0800 ? (size_t)in.l3off : (size_t)-1); if (off == (size_t)-1 || off > f.size()) continue;
+                    bool got; try { got = fresh->matches_response(f.data() + off, (uint32_t)(f.size() - off)); } catch (Tins::exception_base&) { st.inc("probe.direct_match_threw"); continue; }
+                    st.inc("chk.direct_match");
+                    if (got != (labels[in.idx] != 0)) return Verdict::bad(std::string(got ? "sock:stranger-accepted:" : "sock:mirror-rejected:") + perts[in.idx].substr(0, perts[in.idx].find(':')) + ":direct", fmt("matches_response called directly on the freshly built (never serialized) request says %d for frame '%s', expected %d", got, perts[in.idx].c_str(), labels[in.idx]), stepno);
+                }
             }
             // L3 sockets: a frame with a VLAN tag or cut inside the Ethernet header is not an IP datagram for us
             sim::g_sim_now_us = start; sim::g_sim_tick_us = 0; simnet::active = true;
